@@ -126,6 +126,8 @@ func decodeOperator(_ *dataTreeNavigator, context Context, expressionNode *Expre
 		}
 		node.Key = candidate.Key
 		node.Parent = candidate.Parent
+		// what is decoded from a value of some document is a result of that document (and file)
+		node.document, node.filename, node.fileIndex = candidate.GetDocument(), candidate.GetFilename(), candidate.GetFileIndex()
 
 		results.PushBack(node)
 	}
